@@ -45,7 +45,7 @@ class C18(Prop):
                 rows = [r for r in tied_rows(m, dense)]
                 for n in (1, 2):
                     combos = list(itertools.product(rows, repeat=n))
-                    if len(combos) > 250: combos = rng.sample(combos, 250 if tier == "quick" else 2000)
+                    if len(combos) > 250: combos = rng.sample(combos, 250 if tier == "quick" else min(len(combos), 2000))
                     for P in combos:
                         if not any(x == 1 for r in P for x in r): continue
                         k += 1
